@@ -46,10 +46,15 @@ type Contract struct {
 	Lets     []Clause // Label = name
 	Assigns  []string // nil = unspecified; ["nothing"] = pure
 	AssignsSet bool
+	// AssignRows: `assigns KEY[EXPR]` - array KEY may change only at the rows
+	// (object references / backing arrays) named by EXPR evaluated in the
+	// pre-state, and on objects allocated by the call.
+	AssignRows map[string][]Clause
 	Loops    map[int]*LoopSpec
 	Inline   bool
 	NoPanicCheck bool
 	Safety   bool // generate K1 obligations (index, nil, assert, slice, panic, div0)
+	AllowPanics []AllowPanic
 	Pure     bool
 	File     string
 	Format   string // for fmt.Sprintf-like externs: contract applies when arg0 == this literal
@@ -59,6 +64,12 @@ type Contract struct {
 	OnCalls  []OnCall
 	Trusted  bool
 	Replay   string
+}
+
+// AllowPanic: a documented panic that the property tolerates, optionally only under a condition.
+type AllowPanic struct {
+	Text string
+	When *Clause
 }
 
 type GhostVar struct {
@@ -431,8 +442,19 @@ func (cs *ContractSet) LoadFile(file string) error {
 				cur.Lets = append(cur.Lets, c)
 			case "assigns":
 				cur.AssignsSet = true
-				for _, a := range strings.Split(rest, ",") {
+				for _, a := range splitTopLevel(rest, ',') {
 					if a = strings.TrimSpace(a); a != "" {
+						if k := strings.Index(a, "["); k > 0 && strings.HasSuffix(a, "]") {
+							c, err := parseClause(a[k+1:len(a)-1], where)
+							if err != nil {
+								return err
+							}
+							if cur.AssignRows == nil {
+								cur.AssignRows = map[string][]Clause{}
+							}
+							cur.AssignRows[a[:k]] = append(cur.AssignRows[a[:k]], c)
+							continue
+						}
 						cur.Assigns = append(cur.Assigns, a)
 					}
 				}
@@ -448,6 +470,27 @@ func (cs *ContractSet) LoadFile(file string) error {
 				cur.NoPanicCheck = true
 			case "safety":
 				cur.Safety = true
+			case "allowpanic":
+				// allowpanic "text" [when EXPR]
+				ap := AllowPanic{}
+				r := strings.TrimSpace(rest)
+				if !strings.HasPrefix(r, "\"") {
+					return fmt.Errorf("%s: allowpanic needs a quoted text", where)
+				}
+				end := strings.Index(r[1:], "\"")
+				if end < 0 {
+					return fmt.Errorf("%s: allowpanic: unterminated text", where)
+				}
+				ap.Text = r[1 : 1+end]
+				tail := strings.TrimSpace(r[2+end:])
+				if strings.HasPrefix(tail, "when ") {
+					cl, err := parseClause(tail[5:], where)
+					if err != nil {
+						return err
+					}
+					ap.When = &cl
+				}
+				cur.AllowPanics = append(cur.AllowPanics, ap)
 			case "format":
 				s, err := strconv.Unquote(strings.TrimSpace(rest))
 				if err != nil {
@@ -638,4 +681,24 @@ func specSort(t string) Sort {
 		return Sort(t)
 	}
 	return SInt
+}
+
+// splitTopLevel splits on sep outside of brackets and parentheses.
+func splitTopLevel(s string, sep rune) []string {
+	var out []string
+	depth, start := 0, 0
+	for i, r := range s {
+		switch r {
+		case '(', '[':
+			depth++
+		case ')', ']':
+			depth--
+		default:
+			if r == sep && depth == 0 {
+				out = append(out, s[start:i])
+				start = i + 1
+			}
+		}
+	}
+	return append(out, s[start:])
 }
